@@ -23,10 +23,33 @@ Definition set_flt (lx : clexer) (f : option fspec) : clexer :=
 Definition set_rec (lx : clexer) (r : option rref) : clexer :=
   mklex (c_text lx) (c_met lx) (c_sc lx) (c_filter lx) r (c_buf lx) (c_ps lx) (c_ts lx) (c_cur lx).
 
-(** lexer.rs:90-118 *)
-Definition c_with_metrics (lx : clexer) (m : metrics) : clexer := set_met lx m.
-Definition c_with_le (lx : clexer) (l : le_kind) : clexer := set_met lx (Build_metrics l (tabw (c_met lx))).
-Definition c_with_tab (lx : clexer) (n : nat) : clexer := set_met lx (Build_metrics (le (c_met lx)) n).
+(** lexer.rs remeasure_positions (added by the repair): every position the lexer holds is
+    recomputed from its byte offset, [metrics.end_position(&text[..byte], Pos::ZERO)] *)
+Definition remeasure (m : metrics) (t : text) (p : pos) : res pos :=
+  match split_at t (byte p) with
+  | None => Panic
+  | Some (pre, _) => end_position m pre pos_zero
+  end.
+
+Definition set_met_remeasure (lx : clexer) (m : metrics) : res clexer :=
+  let t := c_text lx in
+  do ps <- remeasure m t (c_ps lx);
+  do ts <- remeasure m t (c_ts lx);
+  do cur <- remeasure m t (c_cur lx);
+  do b <- match c_buf lx with
+          | None => Ok None
+          | Some b => do s <- remeasure m t (pk_start b);
+                      do e <- remeasure m t (pk_cursor b);
+                      Ok (Some (mkbuf (pk_sc b) s e (pk_tok b)))
+          end;
+  Ok (mklex t m (c_sc lx) (c_filter lx) (c_rec lx) b ps ts cur).
+
+(** lexer.rs with_column_metrics / with_line_ending / with_tab_width *)
+Definition c_with_metrics (lx : clexer) (m : metrics) : res clexer := set_met_remeasure lx m.
+Definition c_with_le (lx : clexer) (l : le_kind) : res clexer :=
+  set_met_remeasure lx (Build_metrics l (tabw (c_met lx))).
+Definition c_with_tab (lx : clexer) (n : nat) : res clexer :=
+  set_met_remeasure lx (Build_metrics (le (c_met lx)) n).
 
 Definition filtered_out (lx : clexer) (tk : tok) : bool :=
   match c_filter lx with None => false | Some f => negb (fkeep f tk) end.
